@@ -205,7 +205,7 @@ def cases(rng, tier):
             p = b"".join(toks)
             yield _path_case("/", p, True)
             yield _path_case("/", p, False)
-    nrand = 1500 if tier == "quick" else 30000
+    nrand = 1500 if tier == "quick" else 10000
     alpha = CORE * 3 + MORE
     for _ in range(nrand):
         n = rng.randint(1, 7)
